@@ -5,11 +5,39 @@ import ast
 from typing import Any, Dict, Iterable, List, Optional, Sequence, Tuple
 
 from ..loader import AnalysisError, FuncInfo, Program
-from ..flow import Event, Summary, summarise, inline_calls, uninl
+from ..flow import Event, Summary, inline_calls, uninl
+from .. import flow as _flow
 from ..cfg import CFG, cfg_of
 from ..report import Collector
 from .. import terms as T
 from ..terms import Term, V, ANY
+
+
+def summarise(prog: Program, fi: FuncInfo) -> Summary:
+    """Every rule reads the normal form: the event summary with helpers spliced in."""
+    return _flow.spliced(prog, fi)
+
+
+def absorbed_helpers(prog: Program) -> set:
+    """Helpers introduced after the pinned tree that are spliced into at least one caller: they are
+    analysed as part of their callers, not as units of their own."""
+    cached = getattr(prog, "_absorbed", None)
+    if cached is not None:
+        return cached
+    out = set()
+    for fi in prog.all_functions():
+        for e in _flow.spliced(prog, fi).events:
+            q = e.extra.get("spliced_call") if isinstance(e.extra, dict) else None
+            if q is not None and q in prog.functions and _flow.is_new_helper(prog.functions[q]):
+                out.add(q)
+    prog._absorbed = out  # type: ignore[attr-defined]
+    return out
+
+
+def analysis_units(prog: Program) -> List[FuncInfo]:
+    """All functions that are analysed on their own (everything but absorbed helpers)."""
+    ab = absorbed_helpers(prog)
+    return [fi for fi in prog.all_functions() if fi.qualname not in ab]
 
 
 class Ctx:
@@ -20,7 +48,13 @@ class Ctx:
         return self.prog.func(qn)
 
     def summ(self, qn: str) -> Summary:
-        return summarise(self.prog, self.prog.func(qn))
+        """The function's event summary with helpers spliced in (see flow.spliced): the normal form
+        every rule reads."""
+        from ..flow import spliced
+        return spliced(self.prog, self.prog.func(qn))
+
+    def raw(self, qn: str) -> Summary:
+        return _flow.summarise(self.prog, self.prog.func(qn))
 
     def spliced(self, qn: str) -> Summary:
         from ..flow import spliced
@@ -122,7 +156,7 @@ def items_iter(it: Term) -> Optional[Tuple[Term, Optional[Term], Optional[Term],
             return table, tgt, ("idx", table, tgt), "keys"
         if form == "values":
             return table, None, tgt, "values"
-    if src[0] == "attr":
+    if src[0] in ("attr", "var"):
         return src, tgt, ("idx", src, tgt), "keys"
     return None
 
